@@ -44,6 +44,7 @@ def load_ref() -> dict:
     return _REF
 
 
+_COMPL = {ast.Is: ast.IsNot, ast.IsNot: ast.Is, ast.In: ast.NotIn, ast.NotIn: ast.In, ast.Eq: ast.NotEq, ast.NotEq: ast.Eq}
 _SCOPES = (ast.FunctionDef, ast.AsyncFunctionDef, ast.Lambda, ast.ClassDef, ast.ListComp, ast.SetComp, ast.DictComp, ast.GeneratorExp)
 
 
@@ -257,16 +258,18 @@ def functions_of(tree):
     return out
 
 
-def _negation_text(test) -> str:
-    if isinstance(test, ast.UnaryOp) and isinstance(test.op, ast.Not):
-        return _unparse(test.operand)
-    return _unparse(ast.UnaryOp(op=ast.Not(), operand=test))
-
-
 def _negate(test):
+    """the negation of a test, in the canonical notation (complementary operator for a single
+    identity / membership / equality comparison, `not` stripped or added otherwise)"""
     if isinstance(test, ast.UnaryOp) and isinstance(test.op, ast.Not):
         return test.operand
+    if isinstance(test, ast.Compare) and len(test.ops) == 1 and type(test.ops[0]) in _COMPL:
+        return ast.copy_location(ast.Compare(left=test.left, ops=[_COMPL[type(test.ops[0])]()], comparators=test.comparators), test)
     return ast.copy_location(ast.UnaryOp(op=ast.Not(), operand=test), test)
+
+
+def _negation_text(test) -> str:
+    return _unparse(_negate(test))
 
 
 def normalise_function(fnode, ref: dict) -> int:
@@ -366,9 +369,6 @@ def normalise_function(fnode, ref: dict) -> int:
                     n.body, n.orelse = n.orelse, n.body
                     changed += 1
     return changed
-
-
-_COMPL = {ast.Is: ast.IsNot, ast.IsNot: ast.Is, ast.In: ast.NotIn, ast.NotIn: ast.In, ast.Eq: ast.NotEq, ast.NotEq: ast.Eq}
 
 
 class _PushNot(ast.NodeTransformer):
